@@ -5,7 +5,8 @@ Driver handler for the `sync-batches` stream (C16): one model node per follower,
 handed to the real `InsertChain` is replayed through `Sync.insertChain`.
 
   sync-new <fid> <genesisHash>                                              (no observation)
-  sync-insert <fid> <k> <height>:<hash>:<prev>:<valid> × k                  | <index> <outcome> <frontierHeight> <hash,hash,…>
+  sync-insert <fid> <kind> <k> <height>:<hash>:<prev>:<valid> × k           | <index> <outcome> <frontierHeight> <hash,hash,…>
+(`kind` is the generator's label of the batch; the model does not look at it.)
 Hashes are 16 hex digits (the first 8 bytes). `valid` is 1 when the delivered momentum and its account
 blocks are the producer's own bytes, 0 when the harness corrupted them.
 -/
@@ -62,7 +63,7 @@ def syncStep (st : SyncSt) : List String → Option (SyncSt × String)
       let g ← hexNat? g
       let n : Node := { genesis := { height := 1, hash := g, prev := 0, body := 1 }, rest := [] }
       pure (setNode st fid n, "ok")
-  | "sync-insert" :: fid :: k :: items => do
+  | "sync-insert" :: fid :: _kind :: k :: items => do
       let fid ← fid.toNat?
       let k ← k.toNat?
       if items.length ≠ k then none
